@@ -1488,6 +1488,11 @@ pub fn run(r: &Report) -> i32 {
         "compiled_ok_with_nonempty_result",
     ];
     nonvac.push("compiled_global_ok");
+    r.count(
+        "join_hash_matrices_scripted_with_two_identical_functions",
+        super::c01::HASH_COLLIDE_HITS.load(std::sync::atomic::Ordering::Relaxed),
+    );
+    nonvac.push("join_hash_matrices_scripted_with_two_identical_functions");
     r.finish(
         "exploration",
         "plaintext: per schema (6: one/two key columns of u8, i32[2], bit[2]; equal/differing/crossed header names; null column first or last) \
@@ -1496,7 +1501,9 @@ pub fn run(r: &Report) -> i32 {
          compiled (one compilation per join type x owner configuration x table sizes, then all table pairs over a reduced row alphabet): \
          thorough A: schema k2-diff, 6 owner configurations, sizes {1,2}^2, rows {null0,nullJ,k0,k1} (2x2: without null0); B: masked, 3 owner \
          configurations, sizes 1x1 and 2x1, every key-mask pattern; C: u8 key, 2 owner configurations, 2x2; D: 2-bit key, 2 owner configurations, 2x2; \
-         each pair in global mode and three-party mode with junk zeros and junk ones. quick: k2-diff with one size per owner configuration and \
+         E: schema k1-cross-same (a data column of the first table named and typed like the key of the second), Inner/Left/Union, plain and masked; \
+         each pair in global mode, three-party mode with junk zeros and junk ones, and global mode with the hash matrices scripted so that two of the three \
+         Cuckoo/simple hash functions are identical (every matched row is then found in two switched tables). quick: k2-diff with one size per owner configuration and \
          the 2-bit key 2x2 (Inner), three-party with junk alternating by pair index, global for Union/Full. \
          distinct = cases where both tables have a live row",
         true,
